@@ -73,6 +73,31 @@ def bulk_record(inp):
         r['pair'] = [[bits(jaccarddist(qa[a], ra[b])) if ra[b] is not None else -2 for b in range(len(pool))] for a in range(len(pool))]
         refs = container(inp['cont'], [pool[i - 1] for i in inp['r']], rd)
         queries = [qa[i - 1] for i in inp['q']]
+        if inp.get('hist'):
+            # the reference collection is a long-lived mutable list: it is used for bulk calls, changed in place, used again ...; the
+            # record holds the final call and the members the list then has (tracked with a plain python list)
+            model = list(inp['r'])
+            warm = lambda: (len(refs) and jaccarddist_array(qa[3], refs), jaccarddist_matrix(qa[3:5], refs), len(refs) > 1 and jaccarddist_pairwise(refs))
+            for step in inp['hist']:
+                warm()
+                kind = step[0]
+                mk = lambda m: np.asarray(pool[m - 1], dtype=rd)
+                if kind == 'set':
+                    refs[step[1]] = mk(step[2]); model[step[1]] = step[2]
+                elif kind == 'del':
+                    del refs[step[1]]; del model[step[1]]
+                elif kind == 'ins':
+                    refs.insert(step[1], mk(step[2])); model.insert(step[1], step[2])
+                elif kind == 'app':
+                    refs.append(mk(step[1])); model.append(step[1])
+                elif kind == 'rev':
+                    refs.reverse(); model.reverse()
+                elif kind == 'swap':
+                    refs[step[1]], refs[step[2]] = refs[step[2]], refs[step[1]]; model[step[1]], model[step[2]] = model[step[2]], model[step[1]]
+                elif kind == 'pop':
+                    refs.pop(); model.pop()
+            r['r'] = model
+            inp = dict(inp, r=model)
         if inp.get('qsrc') == 'refs-slice':
             # the queries are a contiguous slice of the reference collection itself (an earlier read of the same object that is still
             # alive while later chunks are read), and one more slice is read and dropped in between
@@ -220,6 +245,50 @@ class Pairwise(Fam):
                                            chunk=None, threads=threads, outbuf=['none', 'given'][threads % 2])
 
 
+class MutatedLists(Fam):
+    """the reference collection is a LIST OBJECT that lives across calls and is changed in place between them (replace, swap, reverse, insert,
+    append, delete, pop), every bulk entry point having been used on it before each change: the final call must describe the list as it is"""
+    name = 'mutated-reference-lists'
+    exhaustive = False
+
+    def inputs(self, ctx):
+        n = 150 if ctx.tier == 'quick' else 1500
+        self.rule = (f'{n} seeded histories of 1-5 in-place changes (set / swap / reverse / insert / append / del / pop) on a SignatureList or plain list of 3-6 pool '
+                     'members, all three bulk entry points called on the object before every change; final call = matrix / array / square / flat')
+        rng = ctx.rng
+        pool = POOLS['basic']
+        for t in range(n):
+            cont = ('list', 'plain')[t % 2]
+            model = [rng.randrange(1, len(pool) + 1) for _ in range(rng.randint(3, 6))]
+            r0 = list(model)
+            hist = []
+            for _ in range(rng.randint(1, 5)):
+                kind = rng.choice(['set', 'set', 'swap', 'rev', 'ins', 'app', 'del', 'pop']) if len(model) > 2 else rng.choice(['set', 'ins', 'app'])
+                m = rng.randrange(1, len(pool) + 1)
+                if kind == 'set':
+                    st = ['set', rng.randrange(-len(model), len(model)), m]; model[st[1]] = m
+                elif kind == 'swap':
+                    st = ['swap', rng.randrange(len(model)), rng.randrange(len(model))]; model[st[1]], model[st[2]] = model[st[2]], model[st[1]]
+                elif kind == 'rev':
+                    st = ['rev']; model.reverse()
+                elif kind == 'ins':
+                    st = ['ins', rng.randrange(len(model) + 1), m]; model.insert(st[1], m)
+                elif kind == 'app':
+                    st = ['app', m]; model.append(m)
+                elif kind == 'del':
+                    st = ['del', rng.randrange(len(model))]; del model[st[1]]
+                else:
+                    st = ['pop']; model.pop()
+                hist.append(st)
+            op = ('matrix', 'array', 'square', 'flat')[t % 4 if t % 8 < 6 else 1]
+            dt = ('u2', 'u8', 'i4')[t % 3]
+            yield dict(op=op, pool=pool, q=[4, 5] if op == 'matrix' else [5] if op == 'array' else [], r=r0, hist=hist, idx=None, idx_as='list', qdtype=dt, rdtype=dt,
+                       cont=cont, chunk=(None, 2)[t % 2], threads=(1, 16)[t % 2], outbuf='none')
+
+    def nontrivial(self, inp, rec):
+        return core.short_hash(inp) if rec.get('ok') and len({core.canon(inp['pool'][m - 1]) for m in rec['r']}) >= 2 and len(rec['r']) >= 2 else None
+
+
 class ManyRefs(Fam):
     name = 'many-references-parallel'
     exhaustive = False
@@ -276,7 +345,7 @@ class LargeN(Fam):
         return core.canon({k: v for k, v in inp.items() if k not in ('pool', 'r', 'idx')} | dict(n=len(inp['r'])))[:300] + ' ' + rec.get('err', '')
 
 
-FAMILIES = [Matrix, Pairwise, ManyRefs, LargeN]
+FAMILIES = [Matrix, Pairwise, MutatedLists, ManyRefs, LargeN]
 
 
 def run(ctx):
